@@ -28,6 +28,9 @@ API
     lr = link_and_run(ctx, linker, prog, objs, kind, extra_link_args=(), workdir=..., gc=False)
          # -> LinkRun(.link Result, .run Result|None, .out path, .cmd, .lib_link, .lib, .transcript)
     diff_transcripts(a, b)     # -> list of (kind, id, a_value, b_value)
+    make_archives(ctx, built, workdir, rng, thin=False)   # -> inputs_override list with some units in .a files
+    command_text(ctx, linker, prog, lr)                   # shell text of a LinkRun, for witnesses
+    python3 -m vlib.proggen --seeds 32 [--first K] [--wild]   # self-test: ld == ld.lld on every program x code model x kind
 
 Code models: "nopic" (-fno-pic -fno-pie), "pie" (-fpie), "pic" (-fPIC).
 Output kinds: "static" (-static -no-pie), "static-pie", "pie", "dyn" (dynamic non-PIE, -no-pie),
